@@ -102,6 +102,13 @@ impl<VM: VMBinding, R: Region + 'static> RegionPageResource<VM, R> {
     ) -> Result<PRAllocResult, PRAllocFail> {
         let mut b = self.sync.write().unwrap();
         let succeed = |start: Address, new_chunk: bool| {
+            #[cfg(feature = "verif")]
+            crate::util::verif::c28::log(
+                self.common(),
+                crate::util::verif::c28::GRANT,
+                start,
+                required_pages,
+            );
             Result::Ok(PRAllocResult {
                 start,
                 pages: required_pages,
@@ -129,6 +136,13 @@ impl<VM: VMBinding, R: Region + 'static> RegionPageResource<VM, R> {
             Self::REGION_PAGES,
             tls,
         )?;
+        #[cfg(feature = "verif")]
+        crate::util::verif::c28::log(
+            self.common(),
+            crate::util::verif::c28::REGION_NEW,
+            start,
+            Self::REGION_PAGES,
+        );
         b.all_regions.push(AllocatedRegion {
             region: R::from_aligned_address(start),
             cursor: Atomic::<Address>::new(start),
@@ -160,6 +174,13 @@ impl<VM: VMBinding, R: Region + 'static> RegionPageResource<VM, R> {
         let old = alloc.cursor();
         let new = address.align_up(BYTES_IN_PAGE);
         let pages = (old - new) / BYTES_IN_PAGE;
+        #[cfg(feature = "verif")]
+        crate::util::verif::c28::log(
+            self.common(),
+            crate::util::verif::c28::RELEASE_RANGE,
+            new,
+            pages,
+        );
         self.common().accounting.release(pages);
         alloc.set_cursor(new);
     }
